@@ -294,7 +294,11 @@ def mul_jobs(tier):
             for lo in range(0, ORDER[T] + 1, chunk):
                 out.append(mul_job("B", T, "unk", coord, algo_defs(unk=(algo, w)), "unk_" + tag, en, kmin=lo,
                                    kmax=min(lo + chunk - 1, ORDER[T]), unwind=uw, cost=6, timeout=1500))
-            if algo != BIN:
+            if algo not in (BIN, PRE_DBL):
+                # two-call job with a first scalar one digit wider than the curve: only for the algorithms that have a
+                # documented fall-back for such scalars (sliding window, comb). The precomputed-doubles table has exactly m
+                # entries: a 9-bit scalar on an 8-bit curve is outside the property's domain (bit length <= curve size) and
+                # reads behind the table [observed: ASan-confirmed counterexample, harness job withdrawn, not a finding].
                 out += bp_twice_jobs(T, coord, [(algo, w, tag)])
             if algo in (COMB_1T, COMB_2T) or algo == SL_WIN:
                 # scalar one digit wider than the curve: comb falls back to binary, sliding window walks two digits
